@@ -1792,6 +1792,53 @@ func (c *c6sk) stmt(s ast.Stmt, ind string) ([]string, error) {
 	return nil, c.errf(s, "unknown statement %T", s)
 }
 
+// c6AllFuncs: every function and method declared in types.go, util.go, builder.go, and Marshal / Packet.Scan of
+// packet.go, as "Recv.Name" / "Name", in source order (files in the order just given). The closing obligation
+// C06_every_body_interpreted compares this list with the names that have a tie or interpretation lemma.
+func c6AllFuncs(fset *token.FileSet, files []*ast.File) (string, error) {
+	var rows []string
+	for _, want := range []string{"types.go", "util.go", "builder.go", "packet.go"} {
+		var file *ast.File
+		for _, f := range files {
+			if filepath.Base(fset.Position(f.Pos()).Filename) == want {
+				file = f
+			}
+		}
+		if file == nil {
+			return "", fmt.Errorf("c06: net/packet/%s not found", want)
+		}
+		for _, d := range file.Decls {
+			fd, ok := d.(*ast.FuncDecl)
+			if !ok {
+				continue
+			}
+			name := fd.Name.Name
+			if fd.Recv != nil && len(fd.Recv.List) == 1 {
+				ty := fd.Recv.List[0].Type
+				if st, ok := ty.(*ast.StarExpr); ok {
+					ty = st.X
+				}
+				switch ix := ty.(type) {
+				case *ast.IndexExpr:
+					ty = ix.X
+				case *ast.IndexListExpr:
+					ty = ix.X
+				}
+				id, ok := ty.(*ast.Ident)
+				if !ok {
+					return "", fmt.Errorf("%s: c06: unknown receiver type", fset.Position(fd.Pos()))
+				}
+				name = id.Name + "." + name
+			}
+			if want == "packet.go" && name != "Marshal" && name != "Packet.Scan" {
+				continue // framing (Pack / UnPack ...) belongs to C07
+			}
+			rows = append(rows, "\""+name+"\"")
+		}
+	}
+	return "(* every function of types.go, util.go, builder.go and Marshal / Packet.Scan of packet.go, in source order *)\nDefinition all_funcs : list string :=\n  [ " + strings.Join(rows, ";\n    ") + " ].\n\n", nil
+}
+
 func genC06Skel(fset *token.FileSet, files []*ast.File) (string, error) {
 	var b bytes.Buffer
 	b.WriteString("(* ---- statement skeletons (Model/C06_syntax.v, cstmt6); the first string of each pair is the signature *)\nLocal Open Scope string_scope.\n\n")
@@ -1821,5 +1868,10 @@ func genC06Skel(fset *token.FileSet, files []*ast.File) (string, error) {
 		}
 		fmt.Fprintf(&b, "Definition %s : string * list cstmt6 :=\n  (%s,\n  %s).\n\n", sp.coq, qs, c6block(body, "  "))
 	}
+	af, err := c6AllFuncs(fset, files)
+	if err != nil {
+		return "", err
+	}
+	b.WriteString(af)
 	return b.String(), nil
 }
